@@ -260,7 +260,8 @@ impl<'a, G: AffineRepr> Iterator for AggregatedGensIter<'a, G> {
             self.party_idx += 1;
         }
 
-        if self.party_idx >= self.m {
+        if self.party_idx >= self.m || self.gen_idx >= self.n {
+            // Past the last party, or a zero-width view: nothing (left) to list.
             None
         } else {
             let cur_gen = self.gen_idx;
